@@ -87,7 +87,36 @@ func main() {
 	mutant := flag.String("mutant", "", "internal: evaluate with this mutant applied and print obligations as JSON")
 	list := flag.Bool("list", false, "list properties and rules")
 	noSelf := flag.Bool("noselftest", false, "thorough without the mutant self-test")
+	dump := flag.Bool("dump", false, "print the registry as JSON (used by tools/gen_manifest.py)")
+	replay := flag.String("replay", "", "replay file written for a violation: re-evaluates that rule on the current tree")
 	flag.Parse()
+	if *replay != "" {
+		if b, err := os.ReadFile(*replay); err == nil {
+			var rp struct {
+				Property   string
+				Obligation struct{ Rule string }
+			}
+			if json.Unmarshal(b, &rp) == nil {
+				if *propID == "" {
+					*propID = rp.Property
+				}
+				*only = rp.Obligation.Rule
+			}
+		}
+	}
+	if *dump {
+		out := map[string]any{}
+		for id, p := range registry {
+			var rules []map[string]string
+			for _, r := range p.Rules {
+				rules = append(rules, map[string]string{"id": r.ID, "doc": r.Doc})
+			}
+			out[id] = map[string]any{"explanation": p.Explanation, "not_covered": p.NotCovered, "rules": rules, "mutants": len(p.Mutants)}
+		}
+		b, _ := json.MarshalIndent(out, "", " ")
+		fmt.Println(string(b))
+		return
+	}
 	if *list {
 		var ids []string
 		for id := range registry {
